@@ -85,6 +85,7 @@ def run(ctx):
              "frame, stores the incremented variable, tests against the limit by the sign of the "
              "step, and on continuing pushes the same frame back in the same order and returns to "
              "the loop body; a missing STEP is 1; no frame on top is NEXT WITHOUT FOR")
+    codegen.check_all_statements_compiled(ctx, "C01.g", cr)
     rule_k(ctx, cr)
     ctx.rule("C01.l", "ON..GOTO/GOSUB: the template is count, selector, On, one Jump per target in "
              "list order; the handler pops selector then count, adds `count` to pc for selector 0 "
